@@ -18,6 +18,9 @@ def rand_edge(rng, into_sink, blocking_ends):
     if k == "fleet":
         return dict(kind="fleet", cap=rng.choice([2, 3, 4]), delay=rng.choice([2, 4, 8]), transit=rng.choice([0, 1, 2]))
     if k == "cbelt":
+        if rng.random() < 0.4:      # non-dyadic geometry: float paths (the 1e-5 tolerance, ceil of inexact quotients)
+            return dict(kind="cbelt", length=rng.choice([2, 3, 5]), ilen=rng.choice([1, 0.5]), speed=rng.choice([5.76, 3.0, 0.7, 1.3]),
+                        acc=rng.choice([0, 1]))
         return dict(kind="cbelt", cap=rng.choice([2, 3, 4, 5]), p1=rng.choice([1, 2, 4]), acc=rng.choice([0, 1]))
     return dict(kind="slot", cap=rng.choice([2, 3, 4]), delay=rng.choice([1, 2]), acc=rng.choice([0, 1]))
 
@@ -56,22 +59,30 @@ def build_and_run(cfg):
     from factorysimpy.edges.slotted_conveyor import ConveyorBelt as SBelt
     env = simpy.Environment()
     log = []
+    def tt(x):
+        t = f2t(x)
+        return t if t is not None else repr(x)       # exact float repr: reproducibility means bit-identical times
+    # every item gets the length of the conveyor(s) in this line (one item length per factory)
+    ilens = [c["ilen"] for c in cfg["edges"] if "ilen" in c]
+    item_length = ilens[0] if ilens else 1
     def mk_edge(i, c):
         if c["kind"] == "buffer": e = Buffer(env, f"E{i}", capacity=c["cap"], delay=t2f(c["delay"]), mode=c["mode"])
         elif c["kind"] == "fleet": e = Fleet(env, f"E{i}", capacity=c["cap"], delay=t2f(c["delay"]), transit_delay=t2f(c["transit"]))
+        elif c["kind"] == "cbelt" and "speed" in c:
+            e = CBelt(env, f"E{i}", conveyor_length=c["length"], speed=c["speed"], item_length=c["ilen"], accumulating=c["acc"])
         elif c["kind"] == "cbelt": e = CBelt(env, f"E{i}", conveyor_length=c["cap"], speed=8.0 / c["p1"], item_length=1, accumulating=c["acc"])
         else: e = SBelt(env, f"E{i}", capacity=c["cap"], delay=t2f(c["delay"]), accumulating=c["acc"])
         op, og = e.put, e.get
         def put(ev, item, _op=op, _i=i):
-            r = _op(ev, item); log.append((f2t(env.now), _i, "put", str(item.id))); return r
+            r = _op(ev, item); log.append((tt(env.now), _i, "put", str(item.id))); return r
         def get(ev, _og=og, _i=i):
-            it = _og(ev); log.append((f2t(env.now), _i, "get", str(it.id))); return it
+            it = _og(ev); log.append((tt(env.now), _i, "get", str(it.id))); return it
         e.put, e.get = put, get
         st = getattr(e, "inbuiltstore", None)
         if st is not None:          # the Sink takes items through edge.inbuiltstore
             sg = st.get
             def sget(ev, _sg=sg, _i=i):
-                it = _sg(ev); log.append((f2t(env.now), _i, "sget", str(getattr(it, "id", it)))); return it
+                it = _sg(ev); log.append((tt(env.now), _i, "sget", str(getattr(it, "id", it)))); return it
             st.get = sget
         return e
     edges = [mk_edge(i, c) for i, c in enumerate(cfg["edges"])]
@@ -80,7 +91,7 @@ def build_and_run(cfg):
         def f():
             v = lst[st["i"] % len(lst)]; st["i"] += 1; return t2f(v)
         return f
-    src = Source(env, "S0", inter_arrival_time=cyc(cfg["iat"]), blocking=cfg["src_blocking"], item_length=1)
+    src = Source(env, "S0", inter_arrival_time=cyc(cfg["iat"]), blocking=cfg["src_blocking"], item_length=item_length)
     nodes = [src]
     ms = []
     for j in range(cfg["nm"]):
@@ -93,7 +104,7 @@ def build_and_run(cfg):
         # the Buffer from the second source becomes in-edge 0 of the first machine: the Fleet / conveyor edge is then a
         # non-first in-edge, whose granted reservations a FIRST_AVAILABLE consumer cancels
         extra_e = Buffer(env, "EX", capacity=2, delay=0)
-        s2 = Source(env, "S1", inter_arrival_time=cyc([3, 5]), blocking=True, item_length=1)
+        s2 = Source(env, "S1", inter_arrival_time=cyc([3, 5]), blocking=True, item_length=item_length)
         extra_e.connect(s2, ms[0]); nodes.append(s2); extra = (s2, extra_e)
     edges[0].connect(src, ms[0])
     for j in range(cfg["nm"]):
@@ -101,7 +112,7 @@ def build_and_run(cfg):
         edges[j + 1].connect(ms[j], dst)
     if cfg.get("second_source") and not cfg.get("extra_first"):
         extra_e = Buffer(env, "EX", capacity=2, delay=0)
-        s2 = Source(env, "S1", inter_arrival_time=cyc([3, 5]), blocking=True, item_length=1)
+        s2 = Source(env, "S1", inter_arrival_time=cyc([3, 5]), blocking=True, item_length=item_length)
         extra_e.connect(s2, ms[0]); nodes.append(s2); extra = (s2, extra_e)
     err = None; steps = 0; last_t = -1; same = 0
     try:
